@@ -14,3 +14,16 @@ func TestCorpus(t *testing.T) {
 		t.Fatal(err)
 	}
 }
+
+func TestStateCache(t *testing.T) {
+	if RaceEnabled {
+		t.Skip("not under -race")
+	}
+	rep, err := CacheSelfTest()
+	for _, l := range rep {
+		t.Log(l)
+	}
+	if err != nil {
+		t.Fatal(err)
+	}
+}
